@@ -26,10 +26,14 @@ use crate::runner::*;
 use crate::tape::Tape;
 
 fn tcp_safety(t: &mut Tape, p: Props, thorough: bool, trace: bool) -> Outcome {
-    scen_tcp::run(t, p, &scen_tcp::Params { liveness: false, thorough, force_medium: None }, trace)
+    scen_tcp::run(t, p, &scen_tcp::Params { liveness: false, thorough, force_medium: None, timeouts_in_exact: false }, trace)
 }
 fn tcp_liveness(t: &mut Tape, p: Props, thorough: bool, trace: bool) -> Outcome {
-    scen_tcp::run(t, p, &scen_tcp::Params { liveness: true, thorough, force_medium: None }, trace)
+    scen_tcp::run(t, p, &scen_tcp::Params { liveness: true, thorough, force_medium: None, timeouts_in_exact: false }, trace)
+}
+
+fn tcp_exact_timeouts(t: &mut Tape, p: Props, thorough: bool, trace: bool) -> Outcome {
+    scen_tcp::run(t, p, &scen_tcp::Params { liveness: true, thorough, force_medium: None, timeouts_in_exact: true }, trace)
 }
 
 fn peer_receiver(t: &mut Tape, p: Props, thorough: bool, trace: bool) -> Outcome {
@@ -326,7 +330,7 @@ fn defs() -> &'static [CheckDef] {
             CheckDef {
                 id: "C13",
                 props: Props::of(&["C13"]),
-                scens: vec![Scen { name: "tcp-pair-liveness", weight: 2, run: tcp_liveness }, Scen { name: "dgram-pair-exact", weight: 1, run: dgram_exact }, Scen { name: "dgram-pair-frag", weight: 1, run: dgram_frag }, Scen { name: "slaac-node", weight: 2, run: slaac_scn }, Scen { name: "dhcp-client", weight: 1, run: dhcp_scn }, Scen { name: "dns-resolver", weight: 1, run: dns_scn }],
+                scens: vec![Scen { name: "tcp-pair-liveness", weight: 2, run: tcp_liveness }, Scen { name: "tcp-pair-exact-with-user-timeouts", weight: 1, run: tcp_exact_timeouts }, Scen { name: "dgram-pair-exact", weight: 1, run: dgram_exact }, Scen { name: "dgram-pair-frag", weight: 1, run: dgram_frag }, Scen { name: "slaac-node", weight: 2, run: slaac_scn }, Scen { name: "dhcp-client", weight: 1, run: dhcp_scn }, Scen { name: "dns-resolver", weight: 1, run: dns_scn }],
                 rule: "early-poll probes (no frame, no socket call since the last poll) at tape-chosen instants before poll_at (or up to 30 s later when poll_at is None); idle-poll deadline check after every frame-less poll; two-node TCP / UDP+ICMP / fragmenting runs and a SLAAC-enabled node with a connecting TCP socket against a scripted router (timely / late / silent / unsolicited advertisements, lifetimes 0 .. infinity); the DHCP-client and DNS-resolver scenarios with the same probes; distinct = event-log hash",
                 assumptions: vec!["IGMP/MLD report timers are outside the claim"],
                 real: REAL,
